@@ -271,10 +271,22 @@ def request_roles(ctx: Any) -> Dict[str, str]:
     for c in walk_local_ordered(f.node):
         if isinstance(c, ast.Call) and call_name(c) == '_generate_request_query' and len(c.args) >= 3 and isinstance(c.args[2], ast.Name):
             roles['qtype'] = c.args[2].id
-    for k in ('now', 'delay', 'last', 'next', 'qtype', 'first'):
+    for k in ('now', 'delay', 'last', 'qtype', 'first'):
         if k not in roles:
             raise AnalysisError(f'anchor vanished: `{k}` of the lookup loop in {f.where()}')
+    if 'next' not in roles:
+        raise NoNextQueryTime(f'no next-query time in the lookup loop of {f.where()}')
     return roles
+
+
+class NoNextQueryTime(AnalysisError):
+    """The lookup loop keeps no `time of the next query` that its sends are tested against."""
+
+
+def no_next_obligation(ctx: Any, R: str) -> List[Ob]:
+    f = ctx.prog.func(INFO + '.async_request')
+    sends = [c for c in walk_local_ordered(f.node) if isinstance(c, ast.Call) and call_name(c) == 'async_send']
+    return [ob(R, f, sends[0] if sends else 'zc.async_send(out, addr, port)', 'a query of the lookup is sent only when the clock has reached the time set for the next query (the wait between queries ends early on every new record, so a send that is not tested against that time follows each wake-up at once)', False, 'the loop keeps no next-query time: it sends on every iteration and relies on the length of a wait that any arriving record cuts short')]
 
 
 @rule('C18.BOUND', 'D', expect_min=7)
@@ -291,7 +303,10 @@ def bound(ctx: Any) -> List[Ob]:
     cfg = cfg_of(f.node)
     obs: List[Ob] = []
 
-    roles = request_roles(ctx)
+    try:
+        roles = request_roles(ctx)
+    except NoNextQueryTime:
+        return no_next_obligation(ctx, R)
     inv = {v: k for k, v in roles.items()}
 
     def rsym(x: ast.AST) -> Optional[str]:
